@@ -18,7 +18,7 @@ TABLE = 32  # SSL_SESSION_TABLE_SIZE of the default configuration
 def plan(tier):
     if tier == "quick":      # 40 runs, seed-stable shape
         return [(16, 50)] * 6 + [(8, 50)] * 12 + [(4, 80)] * 12 + [(2, 120)] * 10
-    cyc = [(16, 50), (8, 50), (4, 100), (2, 200), (12, 50), (6, 60), (3, 100), (8, 60), (4, 60), (2, 300), (16, 50), (5, 80)]
+    cyc = [(16, 50), (8, 50), (4, 100), (2, 200), (8, 50), (6, 60), (3, 100), (4, 50), (4, 60), (2, 300), (12, 50), (5, 80)]
     return [cyc[i % len(cyc)] for i in range(1008)]
 
 
@@ -533,6 +533,8 @@ def run(ctx):
         cfg = [(int(m.group(1)), int(m.group(2)), int(m.group(3)))] * 12   # races vary from run to run
     else:
         cfg = [(derive(ctx.seed, i), t, k) for i, (t, k) in enumerate(plan(ctx.tier))]
+        if os.environ.get("VERIF_C20_RUNS"):        # development aid only: fewer runs of the same plan
+            cfg = cfg[:int(os.environ["VERIF_C20_RUNS"])]
     runs = [Run(i, s, t, k, outdir) for i, (s, t, k) in enumerate(cfg)]
     timeout_fn = lambda r: 300 + 3 * r.ops + 8 * r.threads      # generous: the progress watchdog catches real deadlocks in ~20 s
     done = execute(runs, binary, crlarg, keydir, "tsan", timeout_fn, vflib.NCPU)
